@@ -789,7 +789,11 @@ func (s *session) readDisconnected(oldConn net.Conn, err error) {
 		return
 	case statusActiveClosing:
 	default:
-		s.changeStatus(statusPassiveClosing)
+		if !s.tryChangeStatus(statusPassiveClosing, status) {
+			// the status has been changed concurrently (e.g. by Close): decide again
+			s.readDisconnected(oldConn, err)
+			return
+		}
 	}
 
 	s.peer.sessHub.deleteSession(s)
